@@ -59,6 +59,11 @@ pub fn dirty_spec(addr: u8) -> CtxSpec {
             Event::SetUuid(U1),
             Event::Process(set_eid_req(0x10, addr, 0, 0x99)),
             Event::Process(forge_request(0x10, addr, 0, false, 0x06, &[3])),
+            // ... and it has also decoded, probed and encoded things before
+            Event::Decode(forge_request(0x10, addr, 7, false, 0x01, &[1, 0x77])),
+            Event::GetLength(vec![0x46, 0x0F, 0xF0, 0x21]),
+            Event::Encode { call: EncCall::RespMsgTypes { cc: 0, types: vec![0xBB; 30] }, dst: 0x33 },
+            Event::Encode { call: EncCall::Vendor { fmt: 1, data: 0x0102_0304, num: 5, msg: vec![0xEE; 40] }, dst: 0x44 },
         ],
     }
 }
